@@ -749,6 +749,65 @@ def cte_lookup_obligations(rep):
             rep.undecided(oid, 'pysym', v.detail, function=fn, clause=clause)
 
 
+def plan_cte_obligations(rep):
+    """plan_cte: every CTE of the WITH clause is planned, in order, and its name is bound to the result of the step planned FOR IT - also when the name is
+    already bound (a WITH clause of another select of the statement, an earlier CTE of the same name): the latest definition is the visible one"""
+    from mindsdb_sql.parser.ast import Identifier, Select, CommonTableExpression
+    from mindsdb_sql.planner.query_planner import QueryPlanner
+    QP = 'mindsdb_sql.planner.query_planner'
+    fn = f'{QP}:QueryPlanner.plan_cte'
+    for cname, pre_bound in (('fresh-name', False), ('name-already-bound', True)):
+        def make_args(ex, pre_bound=pre_bound):
+            planner = SymObj({QueryPlanner}, 'planner', prov='param')
+            planner.known_not_none = True
+            old = SymObj(None, 'old_result', prov='param')
+            results = ex.param_container({'c': old} if pre_bound else {})
+            planner.fields['cte_results'] = results
+            planned = []
+
+            def plan_select(ex_, a, k):
+                st_ = SymObj(None, f'step{len(planned)}', prov='fresh')
+                st_.known_not_none = True
+                st_.fields['result'] = SymObj(None, f'result{len(planned)}', prov='fresh')
+                planned.append((a[0], st_))
+                return st_
+            planner.fields['plan_select'] = Stub(plan_select, 'plan_select')
+            ctes = []
+            for nm in ('c', 'd'):
+                cte = SymObj({CommonTableExpression}, f'cte_{nm}', prov='param')
+                cte.known_not_none = True
+                name = SymObj({Identifier}, f'name_{nm}', prov='param')
+                name.known_not_none = True
+                name.fields.update(parts=ex.param_container([nm]), alias=None, parentheses=False)
+                cte.fields.update(name=name, query=SymObj({Select}, f'query_{nm}', prov='param'), columns=None, alias=None, parentheses=False)
+                ctes.append(cte)
+            q = SymObj({Select}, 'query', prov='param')
+            q.known_not_none = True
+            q.fields['cte'] = ex.param_container(ctes)
+            ex.path_state.update(results=results, planned=planned, ctes=ctes, old=old)
+            return [planner, q], {}
+
+        def post(ex, o):
+            if o.kind != 'return':
+                return f'raises {getattr(o.value, "__name__", o.value)}'
+            st = o.state
+            if [p_[0] for p_ in st['planned']] != [c.fields['query'] for c in st['ctes']]:
+                return 'the CTE bodies are not planned once each, in order'
+            for (qq, step), nm in zip(st['planned'], ('c', 'd')):
+                if st['results'].get(nm) is not step.fields['result']:
+                    return f'after plan_cte the name {nm!r} is not bound to the result of the step planned for it ({st["results"].get(nm)!r})'
+            return None
+        v = pysym.verify(QP, 'QueryPlanner.plan_cte', make_args, post)
+        oid = f'C08.cte.bind.{cname}'
+        clause = 'ensures forall CTEs (name, body) of the clause: cte_results[name] == result of the step planned for body (the latest definition shadows an earlier one)'
+        if v.status == PROVED:
+            rep.proved(oid, 'pysym', v.detail, function=fn, clause=clause, seconds=v.seconds)
+        elif v.status == FAILED:
+            rep.failed(oid, 'pysym', v.detail, function=fn, clause=clause, cex=v.cex)
+        else:
+            rep.undecided(oid, 'pysym', v.detail, function=fn, clause=clause)
+
+
 def nested_select_obligations(rep):
     """get_nested_selects_plan_fnc: a nested SELECT stays inside the text sent to `main_integration` only if every table it reads belongs to that
     integration and it touches no mindsdb object; otherwise (or when forced) it is planned on its own and replaced by a reference to its result"""
@@ -1332,6 +1391,7 @@ def check(rep, tier):
     conjunct_obligations(rep)
     union_obligations(rep)
     cte_lookup_obligations(rep)
+    plan_cte_obligations(rep)
     nested_select_obligations(rep)
     api_obligations(rep)
     subselect_obligations(rep)
